@@ -125,6 +125,11 @@ def cases(draw):
             case["style_args"] = draw(gen.iterm2_style())
         else:
             case["style_args"] = {}
+    if kind == "dynamic" and draw(st.booleans()):
+        # the same image object was first used under another cell ratio / cell size at the same terminal size
+        case["prior"] = {"ratio": draw(st.sampled_from([0.5, 1.0, 0.25, 2.0])),
+                         "cell": draw(st.one_of(st.none(), st.tuples(st.integers(1, 8), st.integers(1, 16)).map(list))),
+                         "render": draw(st.booleans())}
     if style == "iterm2":
         case["jpeg"] = draw(st.sampled_from(["unset", "unset", -1, 0, 50, 95]))
         case["rff"] = draw(st.sampled_from(["unset", True, False]))
@@ -214,6 +219,21 @@ def _check(case, rec, image, Screen, anchor, DEFAULT_SGR):
         image.set_size(S[sz[1]])
     else:
         image.size = S[sz[1]]
+        prior = case.get("prior")
+        if prior:
+            import term_image
+
+            env.apply(cell=prior["cell"])
+            term_image.set_cell_ratio(prior["ratio"])
+            try:
+                pw, ph = image.rendered_size
+                if prior["render"] and pw * ph <= 2000:
+                    str(image)
+            except Exception as e:
+                raise Violation(f"render under the prior configuration raised {type(e).__name__}: {e}", {"kind": "render_exception"})
+            env.apply(cell=case["cfg"]["cell"])
+            term_image.set_cell_ratio(case["ratio"])
+            rec.label("prior_config")
     W, H = image.rendered_size
     l, r, t, b = case["slack"]
     if sz[0] == "dynamic":
